@@ -1,7 +1,7 @@
 /-
 C01 — CliqueColoring(n, k, c): a graph on [n] with a k-clique and a c-colouring.
 -/
-import Lemmas.FamCC
+import Lemmas.C01CC
 namespace Cnfgen.C01
 open Cnfgen Cnfgen.Fam
 
